@@ -1037,6 +1037,15 @@ func (fr *Frame) applyContract(st *State, fc *FuncContract, fn *types.Func, sig 
 		if fr.top.fc != nil {
 			// `option stableghost g..`: listed assumption that un-framed callees of this function leave ghost g alone
 			for _, g := range strings.Fields(fr.top.fc.Options["stableghost"]) {
+				setsIt := false
+				for _, sc := range fc.Sets {
+					if sc.Name == g {
+						setsIt = true // the callee's own contract assigns this ghost: it is not "left alone"
+					}
+				}
+				if setsIt {
+					continue
+				}
 				if v, ok := st.heap["ghost:"+g]; ok {
 					keep["ghost:"+g] = v
 				} else if gv, ok := e.cs.Vars[g]; ok {
